@@ -724,9 +724,19 @@ loop:
 					continue
 				}
 
+				// An id below the latest one the peer opened was never used and is
+				// implicitly closed (RFC 7540 5.1.1). That has to be said before
+				// the concurrency limit gets a say: refusing it would reset a
+				// stream that does not exist.
+				if fr.Stream() < sc.lastID {
+					sc.writeGoAway(fr.Stream(), ProtocolError, "stream ID is lower than the latest")
+					continue
+				}
+
 				// if the client has more open streams than the maximum allowed OR
-				//   the connection is closing, then refuse the stream
-				if openStreams >= int(sc.st.maxStreams) || wasClosing {
+				//   the connection is closing, then refuse the stream. Only HEADERS
+				//   opens a stream: anything else on an idle id is dealt with below.
+				if fr.Type() == FrameHeaders && (openStreams >= int(sc.st.maxStreams) || wasClosing) {
 					if sc.debug {
 						if wasClosing {
 							sc.logger.Printf("Closing the connection. Rejecting stream %d\n", fr.Stream())
@@ -738,11 +748,6 @@ loop:
 
 					sc.writeReset(fr.Stream(), RefusedStreamError)
 
-					continue
-				}
-
-				if fr.Stream() < sc.lastID {
-					sc.writeGoAway(fr.Stream(), ProtocolError, "stream ID is lower than the latest")
 					continue
 				}
 
